@@ -16,6 +16,10 @@ CLAIMED['C11'] = dict(
    text='Coq theorems (no axioms) for arbitrary inner coders and arbitrary call histories: every programming-error clause refuses without acting, sticky error / sticky end, a finished flush returns to RUN, BUF_ERROR only on the second consecutive stalled invocation and never fatal, TIMED_OUT never surfaces, exact accounting of avail/total fields, totals are exact sums. The model step function is checked (vm_compute) against the COMPLETE transition table obtained on every run by executing the real lzma_code() of the current tree against a scripted inner coder (27k rows), and against supported_actions of all 18 public initialisers.',
    note='Trusted: Coq kernel+vm_compute, drv_code.c/gen.py translator, extraction + driver glue for history replay. Memory outside the buffers: guard bytes + ASan on explored histories only. Inner coders abstract.',
    technique='Coq proof over model + exhaustive translator-generated transition table (vm_compute) + history replay', ref='§6 C11')
+CLAIMED['C03'] = dict(
+   text='Executable Coq specification of the .xz container, LZMA2 and LZMA (range decoder, probability model, all symbol kinds, dictionary as history) written from the format documents; Coq theorems (no axioms): VLI decode/encode round trip and accepted-only-if-canonical for all values, property-byte and dictionary-byte decoders accept exactly the defined sets (finite), documented dictionary relaxation bounds, and the specification\'s constants and LZMA state machine equal those regenerated from the current source. The C decoders are tied to the specification by differential runs (verdict, output, bytes consumed) on generated valid files using every format feature (1-4 filters, all lc/lp/pb, dictionary/state/property resets, uncompressed chunks, sizes present/absent, header padding, all check ids, multi-Block, multi-Stream + padding), field-level and blind mutants, and tests/files, one-shot and randomly sliced.',
+   note='PARTIAL: no theorem relates the resumable C state machines to the one-shot specification (decided by correspondence only); SHA-256 collision freedom assumed for the Index hash. Trusted: Coq kernel, tools/gen.py, extraction, generator (payloads by released liblzma 5.4.1), driver glue.',
+   technique='Coq executable specification + theorems on codecs/constants; differential correspondence vs extracted spec', ref='§6 C03')
 REASONS_PENDING = 'not yet built in this round (work in progress; see DESIGN.md §10 order of work)'
 props = [json.loads(l) for l in open(os.path.join(V, 'properties.jsonl'))]
 checks, na = [], []
